@@ -4,6 +4,8 @@ package main
 
 import (
 	"fmt"
+	"io"
+	"log"
 	"os"
 	"sort"
 
@@ -12,6 +14,7 @@ import (
 )
 
 func main() {
+	log.SetOutput(io.Discard) // third-party libraries (quic-go) write advice to the standard logger
 	if len(os.Args) < 2 {
 		ids := []string{}
 		for id := range monitors.Registry {
